@@ -1,2 +1,9 @@
 import Solvor.Assign.Theorems
 /-! Axiom audit for the property theorems of C10 (run by every check). -/
+#print axioms Solvor.Assign.potentials_cert
+#print axioms Solvor.Assign.padding_sound
+#print axioms Solvor.Assign.padding_optimum
+#print axioms Solvor.Assign.padding_optimum_max
+#print axioms Solvor.Assign.chkAssignment_sound
+#print axioms Solvor.Assign.chkAssignment_optimal
+#print axioms Solvor.Assign.validAsg_ofM
